@@ -65,6 +65,14 @@ func (s *schedRepo) enter(method string) func() {
 	s.gt.mu.Unlock()
 	<-ch
 	return func() {
+		// whatever happens in between, the scheduler hears that this call is over
+		defer func() {
+			if x := recover(); x != nil {
+				s.gt.done <- s.g
+				<-s.gt.ack
+				panic(x)
+			}
+		}()
 		if s.after != nil {
 			s.after(s.g, method)
 		}
@@ -285,7 +293,11 @@ func opConc() error {
 				if row, ok := rows[c.HashOf(i)]; ok {
 					st[i] = map[string]string{"LONGEST_CHAIN": "L", "STALE": "S", "ORPHAN": "O"}[row.State]
 					ht[i] = row.Height
-					v, _ := new(big.Int).SetString(row.Cum, 10)
+					v, okc := new(big.Int).SetString(row.Cum, 10)
+					if !okc {
+						cum[i] = -7 // what is stored is not a decimal integer: no specification value equals it
+						continue
+					}
 					if st[i] != "O" {
 						v.Sub(v, gw)
 					}
